@@ -11,7 +11,7 @@ Driver for C27 (one case = one `restic rewrite` run with pattern flags on a smal
 -/
 open Driver Driver.FT Restic.Model.Filter Restic.Model.Select
 
-def entryKey (e : Entry) : String := s!"{e.path.map showStr}:{e.isDir}:{e.isFile}:{e.size}"
+def entryKey (e : Entry) : String := s!"{e.path.map showStr}:{e.isDir}:{e.isFile}:{e.size}:{e.sock}"
 
 def handleC27 (c : Case) : Verdict := Id.run do
   let tabs := tablesOf c
@@ -22,7 +22,7 @@ def handleC27 (c : Case) : Verdict := Id.run do
     | .ok f => pure f
     | .error e => return .differ "oracle" e
   let comps := compsOfTree root
-  if !(tabs.covers ((fl.exLists ++ fl.inLists).flatMap (·.pats)) comps) then return .differ "oracle" "missing-glob-entry"
+  if !(tabs.covers (fl.allPatterns tabs) comps) then return .differ "oracle" "missing-glob-entry"
   let osum : Option Stats := (c.find "osummary").map fun r => ⟨(r.getD 1 "0").toNat!, (r.getD 2 "0").toNat!⟩
   let model := runRewrite glob fl.nEx fl.nIn fl.allValid fl.exLists fl.inLists root osum
   let includeMode := fl.nIn > 0
